@@ -303,7 +303,8 @@ def check_saving(ctx):
     _raise_kinds(ctx, paths, "Saving", loc)
     # constructor rejects a baseline without fixed parameter
     cls2, ex2, paths2, st2 = _adapter(ctx, ("skchange.anomaly_scores", "Saving"), 2, "none")
-    ok = bool(paths2) and all(p.outcome == "raise" and p.exc.exc_name == "ValueError" and p.exc.func is not None and p.exc.func.name == "__init__" for p in paths2)
+    # ... in the constructor itself or in a validation helper it calls: before anything is fitted or evaluated
+    ok = bool(paths2) and all(p.outcome == "raise" and p.exc.exc_name == "ValueError" and p.exc.func is not None and not any(e.kind in ("scorer_fit", "scorer_evaluate", "check_is_fitted") for e in p.events) for p in paths2)
     ctx.check(ok, rule, "Saving|rejects-optimal-baseline", cls.methods["__init__"].loc(), "Saving(cost with param=None) raises ValueError in the constructor", found=[(p.outcome, p.exc.exc_name if p.exc else "") for p in paths2])
 
 
